@@ -159,5 +159,15 @@ CalldataFns ==
               <<>>, x[5], <<x[4][2]>>))
        : x \in {"public", "external", "internal", "private", "constructor"} \X ParamStorages \X {"data", ""} \X PWrites \X BOOLEAN}
 
+\* two memory parameters: written both / first only / second only / neither, through `=` and through an index
+TwoParams == <<<<[present |-> TRUE, storage |-> "memory", name |-> "first"], [present |-> TRUE, storage |-> "memory", name |-> "second"]>>, <<ArrTy, ArrTy>>>>
+WriteTo(nm, how) == IF how = "assign" THEN ExprStmt(Bin("E.Assign", Var(nm), Var("other")))
+                    ELSE IF how = "index" THEN ExprStmt(Bin("E.Assign", Index(Var(nm), Num("0")), Num("1")))
+                    ELSE ExprStmt(Bin("E.Assign", Var("sink"), Index(Var(nm), Num("0"))))
+CalldataTwo ==
+    {I("calldata2:" \o x[1] \o ":" \o x[2] \o ":" \o x[3], "CP",
+       FnDecl("function", "takeTwo", VisAttr(x[1]) \o MutAttr("payable"), TwoParams, <<>>, TRUE, <<WriteTo("first", x[2]), WriteTo("second", x[3])>>))
+       : x \in {"public", "external"} \X {"assign", "index", "read"} \X {"assign", "index", "read"}}
+
 DeclInstancesCP == FnProduct \cup VarProduct \cup DestructShapes \cup CalldataFns
 =============================================================================
